@@ -105,8 +105,12 @@ package db
 //@ func (db *DB) ListenerRemove(Name string) (err error)
 //@   requires nonnil: db != nil && db.db != nil
 //@   guard-call stmt: "Exec" lastarg(Prepare, 1) == "DELETE FROM TS_Listeners WHERE Name = ?" && len(arg(1)) == 1 && unboxed(arg(1)[0], string) == Name
+// A listener counts as stored only if a row carries exactly its name.
 //@ func (db *DB) ListenerExist(Name string) (r bool)
 //@   requires nonnil: db != nil && db.db != nil
+//@   guard-call all:  "Query" arg(1) == "SELECT Name FROM TS_Listeners"
+//@   guard-call dest: "Scan" len(arg(1)) == 1 && unboxed(arg(1)[0], *string) == &QueryName
+//@   ensures exact: r ==> Name == QueryName
 //@ func (db *DB) ListenerAll() (r []map[string]string)
 //@   requires nonnil: db != nil && db.db != nil
 //@   loop "for query.Next()"
